@@ -118,10 +118,14 @@ def run(ctx: Any) -> None:
             except KeyError:
                 ctx.inconclusive(f"no generator for body class {cls.__name__}")
                 break
+            except Exception as err:  # noqa: BLE001 - a generator failure is counted and skipped
+                g.guarded(ctx, "gen_case " + cls.__name__, lambda e=err: (_ for _ in ()).throw(e))
+                continue
             ctx.count("cls_" + cls.__name__)
-            judge(ctx, cls, body, info)
+            g.guarded(ctx, "judge " + cls.__name__, judge, ctx, cls, body, info)
             if i == 0 and cls.__name__ in ("ConnectRequest", "SearchResponseExtended", "TunnellingFeatureResponse", "SearchRequestExtended"):
                 ctx.sample({"cls": cls.__name__, "body": repr(body)[:200], "raw": g.frame_bytes(body)[:80]})
+    g.harness_verdict(ctx)
     # recorded only: values that xknx pads to even length on the wire
     if ctx.shard == 0:
         for _ in range(ctx.scale(20, 200)):
